@@ -5,7 +5,7 @@ usage: selftest_mutants.py [--only PROP] [--name substr] [--seeded] [--seed N]  
 import os, sys, json, subprocess, shutil, time
 ROOT = os.path.dirname(os.path.dirname(os.path.abspath(__file__)))
 sys.path.insert(0, ROOT)
-WT = "/tmp/verif_mut_wt"
+WT = os.environ.get("VERIF_MUT_WT", "/tmp/verif_mut_wt")
 
 
 def sh(cmd, **kw):
